@@ -16,7 +16,16 @@ type Inst struct {
 	pol   *u.Pollard    // non-nil for the pointer forest
 }
 
+// LightClient is what a C07/C08 light client holds besides the stump: a cached proof and
+// the hashes of the leaves it proves.
+type LightClient struct {
+	proof  u.Proof
+	hashes []u.Hash
+}
+
 type blockRec struct {
+	ud        u.UpdateData
+	numAfter  uint64
 	adds      []u.Leaf
 	delHashes []u.Hash
 	proof     u.Proof
@@ -26,6 +35,7 @@ type blockRec struct {
 
 // Sim drives all implementations through the same history.
 type Sim struct {
+	client *LightClient // non-nil: maintain a cached proof along the history (C07/C08)
 	// undoHashes/undoProof, when set before applyBlockData, are what Undo is later called
 	// with for that block (the canonical encoding) instead of the encoding given to Modify
 	undoHashes  []u.Hash
@@ -213,6 +223,10 @@ func (s *Sim) applyBlockData(delIdx []int, delHashes []u.Hash, proof u.Proof, ad
 	})
 	emit("block %s %s %s %s", hxs(delHashes), hxs(addHashes), us(proof.Targets), hxs(proof.Proof))
 	emitStumpUpdate(before, delHashes, addHashes, proof, res, uerr, ud, s.stump)
+	rec.ud, rec.numAfter = ud, s.stump.NumLeaves
+	if s.client != nil && res == "ok" && uerr == nil {
+		s.clientUpdate(addHashes, proof.Targets, ud)
+	}
 
 	for _, in := range s.insts {
 		p := u.Proof{Targets: copyU64(proof.Targets), Proof: copyHashes(proof.Proof)}
@@ -271,6 +285,9 @@ func (s *Sim) undoLast() {
 		if r != "ok" || uerr != nil {
 			emit("obs %s undofail %s", in.label, r)
 		}
+	}
+	if s.client != nil {
+		s.clientUndo(rec)
 	}
 	s.stump = rec.prevStump
 	n := len(s.slots) - len(rec.adds)
